@@ -18,7 +18,9 @@ vv       correct_autocorr_quantisation with the REAL MeerKAT table on chunked da
          exact rational interpolation on the same float64 table (the only tolerance of the weights part; it concerns
          the tie of np.interp, the property does not fix these values).  The table's monotonicity is checked.
 avg      katdal.averager.average_visibilities on generated arrays, all averaging factors 1..size+2, random flag
-         patterns incl. fully flagged bins and weights summing to zero.
+         patterns incl. fully flagged bins and weights summing to zero; 127..257 baselines, an empty axis, no options.
+lookup   corrprod_to_autocorr as called on product lists of every size class (outcome, values, narrowed dtype).
+store    ChunkStoreVisFlagsWeights with every option / error branch, deleted chunk files and preselect_index.
 
 Implementation vs extracted Coq model = the tie; implementation vs extracted Coq spec = the property.
 """
@@ -37,14 +39,25 @@ RULE = ('kernel/vfw: 1-4 inputs-pairs lists with autocorrelations at random posi
         'products, occasionally a missing auto), autocorrelation powers +-2^e (divide) or small integers (multiply) '
         'with 0, -0, +-inf, NaN at random positions, uint8 weights 0..9, per-channel weights 2^e (rarely 0, negative, '
         'inf, NaN), independent random chunkings of the four stored arrays on all three axes, both scaling '
-        'declarations, optional Van Vleck step on a dyadic table; v4: the same through VisibilityDataV4 with CBF '
-        'attributes (n_accs, dump periods with ratios at and near .5), weights at and around half-way points of the '
-        'rounding, random selections; v3: weights / weights_channel present or absent, selected or not; vv: real '
-        'table; avg: Gaussian-integer visibilities scaled so that the weighted mean is exact in complex64, weights '
-        '2^e or small integers (also negative, summing to zero), all factors 1..size+2, flag patterns with empty, '
-        'partly and fully flagged bins.  A case is one configuration; non-trivial when it has a cross product with two '
-        'different autocorrelations and a special value or a non-unit weight (weights), a non-zero excision '
-        '(v4), more than one sample per bin and a flag (avg); distinct by the whole configuration')
+        'declarations, optional Van Vleck step on a dyadic table; kernel also called without `divide` and with a '
+        'caller-supplied `out`; lookup: corrprod_to_autocorr on empty / singleton / small / 255-256-257 / 250-330 / '
+        '700-900 product lists (dtype of the narrowed arrays changes), shuffled, duplicated, missing autos; store: the '
+        'vfw configurations through every option of ChunkStoreVisFlagsWeights (corrprods None, unscaled without corrprods, '
+        'unknown van_vleck, wrong number of corrprods, no option at all, van_vleck without corrprods), 0-3 chunk files of '
+        'vis / weights / weights_channel deleted, preselect_index on dumps and channels; v4: the same through '
+        'VisibilityDataV4 with CBF attributes (n_accs, dump periods with ratios at and near .5), weights at and around '
+        'half-way points of the rounding, random selections, lost chunks, preselect=, declaration key absent, each of the '
+        'six CBF attributes deleted or emptied / lite telstate; v3: weights / weights_channel present or absent, weight '
+        'selection requests (all, none, names, unknown names, comma strings, lists), first-stage dump mask and a '
+        'second-stage index of every form per axis (all, slice with step, integer, sorted list, mask) on one to three axes '
+        'with the class "advanced indices on two or three axes with equal counts" generated on purpose (+ two fixed corpus '
+        'cases); vv: real table; avg: Gaussian-integer visibilities scaled so that the weighted mean is exact in '
+        'complex64, weights 2^e or small integers (also negative, summing to zero), all factors 1..size+2, flag patterns '
+        'with empty, partly and fully flagged bins, 127..257 baselines (block boundaries of the kernel), an empty axis, '
+        'the call without options.  A case is one configuration; non-trivial when it has a cross product with two '
+        'different autocorrelations and a special value or a non-unit weight (weights), a lost chunk / preselection / '
+        'non-default option (store), a non-zero excision (v4), more than one sample per bin and a flag (avg); distinct by '
+        'the whole configuration')
 ASSUMPTIONS = ['float32 rounding, overflow and underflow are not modelled: generated values keep every float32 / '
                'complex64 operation exact (checked: a model value that is not a float32 is counted in '
                'coverage.inexact_skipped and not compared)',
@@ -54,7 +67,13 @@ ASSUMPTIONS = ['float32 rounding, overflow and underflow are not modelled: gener
                'float64, then complex64 storage rounds once more); monotonicity of the real table checked numerically',
                'averager: bins whose exact mean is not a float32 (or whose unweighted fall-back multiplies by the '
                'rounded float32(1/n)) are compared within 2 ulp of float32 per component; all others exactly',
-               'averager inputs are finite (NaN / infinite visibilities or weights are outside the model)']
+               'averager inputs are finite (NaN / infinite visibilities or weights are outside the model)',
+               'v3 second-stage indices are legal ones (in range, non-negative, lists strictly increasing, masks of full '
+               'length with at least one True, positive steps); the per-axis application of an index by LazyIndexer itself '
+               'is C05\'s subject, C15 checks what the weights transform makes of it end to end',
+               'weight selection strings are split at commas and stripped by the harness as _selection_to_list does',
+               'preselect_index is a pair of contiguous ranges (TelstateDataSource refuses anything else)',
+               'NUMBA_NUM_THREADS=2 (the prange of the averager on two threads), NUMBA_BOUNDSCHECK=1']
 
 warnings.simplefilter('ignore')
 logging.disable(logging.CRITICAL)
